@@ -23,7 +23,7 @@ protocol pushes and later branches on (`TRUE`/`FALSE`/`NIL`/`UNDEFINED` flags, j
 inductive AV where
   | any | tru | fls | nil | undef
   | int (n : Int)
-  | sel (pops : Nat)      -- a `*vm.Select` constant whose cases pop `pops` operands
+  | sel (pops cases : Nat) -- a `*vm.Select` constant with `cases` cases popping `pops` operands in all
   | fn (k : Nat)          -- bytecode function `k` of the program (operand of CLOSURE / EXEC / DEF_METHOD)
 deriving DecidableEq, Repr, Inhabited, Hashable
 
@@ -34,7 +34,7 @@ inductive Const where
   | bcSite (argc : Nat) (tail : Bool) (k : Int) -- *vm.BytecodeCallSiteInfo (k = callee, -1 = nil)
   | ntSite (argc : Nat) (params : Int)          -- *vm.NativeCallSiteInfo
   | sym | int (n : Int) | undef | tru | fls | nil
-  | select (pops : Nat)
+  | select (pops cases : Nat)
   | other
 deriving DecidableEq, Repr, Inhabited
 
@@ -120,7 +120,7 @@ inductive Act where
   | defNamespace
   | jump | loop
   | condJump (t : Test) (pop : Bool)
-  | cmpJump (throws : Bool)
+  | cmpJump (throws : Bool) (eq : Option Bool)   -- eq = some b: Int equality test, jumps iff (equal = b)
   | forIn
   | ret | retLocal (idx : Nat) | retFinally | jumpToFinally
   | throw | rethrow | must | as_
@@ -198,16 +198,16 @@ def semTable : List (String × Sem) := [
   ("GET_LOCAL16", ⟨.u16, .getLocal none⟩),
   ("BOX_LOCAL8", ⟨.u8u8, .boxLocal⟩),
   ("BOX_LOCAL16", ⟨.u16u8, .boxLocal⟩),
-  ("JUMP_UNLESS_LE", ⟨.u16, .cmpJump true⟩),
-  ("JUMP_UNLESS_LT", ⟨.u16, .cmpJump true⟩),
-  ("JUMP_UNLESS_GE", ⟨.u16, .cmpJump true⟩),
-  ("JUMP_UNLESS_GT", ⟨.u16, .cmpJump true⟩),
-  ("JUMP_UNLESS_EQ", ⟨.u16, .cmpJump false⟩),
-  ("JUMP_UNLESS_ILE", ⟨.u16, .cmpJump false⟩),
-  ("JUMP_UNLESS_ILT", ⟨.u16, .cmpJump false⟩),
-  ("JUMP_UNLESS_IGE", ⟨.u16, .cmpJump false⟩),
-  ("JUMP_UNLESS_IGT", ⟨.u16, .cmpJump false⟩),
-  ("JUMP_UNLESS_IEQ", ⟨.u16, .cmpJump false⟩),
+  ("JUMP_UNLESS_LE", ⟨.u16, .cmpJump true none⟩),
+  ("JUMP_UNLESS_LT", ⟨.u16, .cmpJump true none⟩),
+  ("JUMP_UNLESS_GE", ⟨.u16, .cmpJump true none⟩),
+  ("JUMP_UNLESS_GT", ⟨.u16, .cmpJump true none⟩),
+  ("JUMP_UNLESS_EQ", ⟨.u16, .cmpJump false none⟩),
+  ("JUMP_UNLESS_ILE", ⟨.u16, .cmpJump false none⟩),
+  ("JUMP_UNLESS_ILT", ⟨.u16, .cmpJump false none⟩),
+  ("JUMP_UNLESS_IGE", ⟨.u16, .cmpJump false none⟩),
+  ("JUMP_UNLESS_IGT", ⟨.u16, .cmpJump false none⟩),
+  ("JUMP_UNLESS_IEQ", ⟨.u16, .cmpJump false (some false)⟩),
   ("JUMP_UNLESS_NIL", ⟨.u16, .condJump .notNil true⟩),
   ("JUMP_UNLESS_NNP", ⟨.u16, .condJump .notNil false⟩),
   ("JUMP_UNLESS_UNP", ⟨.u16, .condJump .notUndef false⟩),
@@ -217,8 +217,8 @@ def semTable : List (String × Sem) := [
   ("JUMP", ⟨.u16, .jump⟩),
   ("JUMP_IF", ⟨.u16, .condJump .truthy true⟩),
   ("JUMP_IF_NP", ⟨.u16, .condJump .truthy false⟩),
-  ("JUMP_IF_IEQ", ⟨.u16, .cmpJump false⟩),
-  ("JUMP_IF_EQ", ⟨.u16, .cmpJump false⟩),
+  ("JUMP_IF_IEQ", ⟨.u16, .cmpJump false (some true)⟩),
+  ("JUMP_IF_EQ", ⟨.u16, .cmpJump false none⟩),
   ("LOOP", ⟨.u16, .loop⟩),
   ("JUMP_IF_NIL", ⟨.u16, .condJump .isNil true⟩),
   ("JUMP_IF_NIL_NP", ⟨.u16, .condJump .isNil false⟩),
